@@ -353,53 +353,93 @@ def case_boundscheck(cls, params, rec):
 
 
 def case_annotate(cls, params, rec):
-	"""annotate_seqlets on a subset / permutation of seqlets gives the rows of
-	the full call."""
+	"""annotate_seqlets: the row of every seqlet in a full / subset / permuted
+	call equals the row obtained when that seqlet is annotated alone.  The
+	sequences contain unknown (all-zero) columns, and pairs of seqlets that are
+	identical except that one has an unknown column where the other has an
+	'A', so that seqlets cannot be told apart by their arg-max."""
 	import pandas
 	from tangermeme.annotate import annotate_seqlets
 	r = gen.pyrng("C13ann", params["cseed"])
 	nr = gen.nprng("C13ann", params["cseed"])
-	n_ex, L = 3, 60
-	X = gen.ohe([gen.rand_seq(r, L) for _ in range(n_ex)],
-		dtype=torch.float64)
+	L = 60
+	s0 = list(gen.rand_seq(r, L))
+	npos = sorted(r.sample(range(2, L - 2), 6))
+	for p in npos:
+		s0[p] = "A"
+	s1 = list(s0)
+	for p in npos:
+		s1[p] = "N"
+	s2 = list(gen.rand_seq(r, L))
+	s2[10] = "N"
+	seqs = ["".join(s0), "".join(s1), "".join(s2)]
+	X = gen.ohe(seqs, dtype=torch.float64)
 	rows = []
-	for _ in range(params["n_q"]):
+	for p in npos[:4]:
+		a = max(0, p - r.randint(1, 6))
+		b = min(L, p + r.randint(2, 8))
+		rows.append((0, a, b))
+		rows.append((1, a, b))          # same span, N instead of A at p
+	for _ in range(max(0, params["n_q"] - len(rows))):
 		ln = r.choice(LENS)
-		s = r.randint(0, L - ln)
-		rows.append((r.randrange(n_ex), s, s + ln))
-	rows[0] = (0, 0, 25)
-	rows[-1] = (1, L - 1, L)
+		st_ = r.randint(0, L - ln)
+		rows.append((r.randrange(3), st_, st_ + ln))
+	r.shuffle(rows)
 	seqlets = pandas.DataFrame(rows, columns=["example_idx", "start", "end"])
 	motifs = {"m%d" % i: torch.from_numpy(make_pwm(nr, r, r.randint(2, 20),
 		"fine")) for i in range(params["n_t"])}
 	n = params["n_nearest"]
 	kw = dict(n_nearest=n, reverse_complement=params["rc"])
-	st, val = gen.call(annotate_seqlets, X, seqlets, motifs, n_jobs=1, **kw)
-	if st == "raise":
-		rec.violation(cls, params, {"what": "annotate_seqlets raised",
-			"error": repr(val)[:300]}, mech="C13/raised")
-		return
-	bidx, bp = val[0].numpy().copy(), val[1].numpy().copy()
-	for t in range(4):
-		order = list(range(len(rows)))
-		r.shuffle(order)
-		order = order[:r.randint(1, len(order))]
+	desc = {"sequences": seqs, "seqlets": rows, "n_nearest": n}
+	bidx, bp = [], []
+	for k in range(len(rows)):
+		st, val = gen.call(annotate_seqlets, X, seqlets.iloc[k:k + 1], motifs,
+			n_jobs=1, **kw)
+		if st == "raise":
+			if (X[rows[k][0], :, rows[k][1]:rows[k][2]].sum() == 0):
+				bidx.append(None)
+				bp.append(None)
+				continue
+			rec.violation(cls, params, dict(desc, what="annotate_seqlets "
+				"raised on a single seqlet", seqlet=rows[k],
+				error=repr(val)[:300]), mech="C13/raised")
+			return
+		bidx.append(val[0].numpy()[0].copy())
+		bp.append(val[1].numpy()[0].copy())
+	ok_rows = [k for k in range(len(rows)) if bidx[k] is not None]
+	for t in range(5):
+		order = list(ok_rows)
+		if t > 0:
+			r.shuffle(order)
+		if t > 1:
+			order = order[:r.randint(1, len(order))]
+		if t == 4:
+			order = order[::-1]
 		st, val = gen.call(annotate_seqlets, X, seqlets.iloc[order], motifs,
 			n_jobs=r.choice([1, 2, 4]), **kw)
 		if st == "raise":
-			rec.violation(cls, params, {"what": "annotate_seqlets raised on "
-				"a subset", "error": repr(val)[:300]}, mech="C13/raised")
+			rec.violation(cls, params, dict(desc, what="annotate_seqlets "
+				"raised on a subset", order=order, error=repr(val)[:300]),
+				mech="C13/raised")
 			return
 		rec.count("executions_compared", len(order))
 		p = val[1].numpy()
 		i = val[0].numpy()
-		if not same_bits(p, bp[order]) or not (same_bits(i, bidx[order]) or
-			all(sorted(a) == sorted(b) or len(set(pp)) < len(pp) for a, b, pp
-			in zip(i.tolist(), bidx[order].tolist(), p.tolist()))):
-			rec.violation(cls, params, {"what": "annotate_seqlets on a "
-				"subset/permutation differs from the full call",
-				"order": order, "seqlets": rows}, mech="C13/co-query-dependence")
-			return
+		for q, k in enumerate(order):
+			same_p = same_bits(numpy.ascontiguousarray(p[q]), bp[k])
+			same_i = same_bits(numpy.ascontiguousarray(i[q]), bidx[k]) or (
+				sorted(i[q].tolist()) == sorted(bidx[k].tolist())) or len(
+				set(bp[k].tolist())) < len(bp[k])
+			if not (same_p and same_i):
+				rec.violation(cls, params, dict(desc, what="the annotation "
+					"of a seqlet depends on the co-processed seqlets / their "
+					"order", seqlet=rows[k], position_in_call=q, order=order,
+					alone={"idx": bidx[k].tolist(), "p": bp[k].tolist()},
+					in_call={"idx": i[q].tolist(), "p": p[q].tolist()}),
+					mech="C13/co-query-dependence")
+				return
+	rec.count("annotate_seqlets_with_unknown_column", sum(1 for k in ok_rows
+		if X[rows[k][0], :, rows[k][1]:rows[k][2]].sum(dim=0).min() == 0))
 	rec.held(cls, params, nontrivial=True)
 
 
